@@ -627,6 +627,18 @@ fn parse_non_constant_value(
         })?;
 
         to_control_flow::<_, Diagnostic>(|| {
+            // Check that the literal is representable before consuming the token, so that
+            // an out-of-range literal is reported as an error instead of panicking.
+            let peeked = tokens.peek();
+            if peeked.item == IsographLangTokenKind::IntegerLiteral
+                && tokens.source(peeked.location.span).parse::<i64>().is_err()
+            {
+                return Diagnostic::new(
+                    "Expected a valid integer that fits in 64 bits".to_string(),
+                    peeked.location.to::<Location>().wrap_some(),
+                )
+                .wrap_err();
+            }
             let number = tokens.parse_source_of_kind(
                 IsographLangTokenKind::IntegerLiteral,
                 semantic_token_legend::ST_NUMBER_LITERAL,
